@@ -210,7 +210,7 @@ class ForceMatrix:
             # TODO: Should something be done for 4-fold junctions ?
             # if len(vertex_big_edges) == 3:
             combinations = itert.combinations(vertex_big_edges_versors, r=2)
-            angles = [np.arccos(np.dot(*combination)) for combination in combinations]
+            angles = [np.arccos(np.clip(np.dot(*combination), -1, 1)) for combination in combinations]
             if np.max(angles) >= self.angle_limit:
                 self.deletes.add(vid)
         
